@@ -1,4 +1,11 @@
 // ---- U-stack specification (hand-written from the WHATWG text; included after the extracted TreeBuilder struct) ----
+impl Tag {
+    /// #[derive(Clone)] (ASSUMED to copy)
+    #[verifier::external_body]
+    pub fn clone(&self) -> (r: Tag) ensures r == *self { unimplemented!() }
+}
+/// no DOM operation was asked of the sink, no element created
+pub open spec fn sink_quiet(a: Sink, b: Sink) -> bool { a.dom == b.dom && a.created == b.created }
 pub open spec fn html_named(h: Handle, name: LocalName) -> bool { elem_name_of(h) == (ExpandedName { ns: ns!(html), local: name }) }
 impl TreeBuilder {
     pub open spec fn stack(&self) -> Seq<Handle> { self.open_elems.v@ }
@@ -246,7 +253,7 @@ impl TreeBuilder {
     #[verifier::external_body]
     pub fn unexpected<T>(&mut self, _thing: &T) -> (r: ProcessResult)
         ensures final(self).same_but_stack(old(self)), final(self).stack() == old(self).stack(),
-                final(self).sink.pops == old(self).sink.pops, final(self).sink.errs@ == old(self).sink.errs@ + 1,
+                final(self).sink == (Sink { errs: Ghost(old(self).sink.errs@ + 1), ..old(self).sink }),
     { unimplemented!() }
 }
 /// the local tag set of appropriate_place_for_insertion (rule R39, ASSUMED as for `implied`)
